@@ -15,7 +15,7 @@ from checks import scen
 
 PID = "C16"
 MODULE = "checks.c16"
-REQS = ["begin", "begin_set", "step_set", "step", "results", "end", "keepalive", "stop"]
+REQS = ["begin", "begin_set", "step_set", "step", "results", "end", "keepalive", "stop", "expire"]
 
 
 def factory():
@@ -36,7 +36,10 @@ def scripts(tier):
     out = [["begin"] + t for t in tails]
     # sessions begun WITH settings (they are written into the scenario objects of that instance)
     out += [["begin_set", "step", "results"], ["begin_set", "step_set", "step"], ["begin_set", "end", "begin"],
-            ["begin_set", "stop"], ["begin_set", "step_set", "stop"]]
+            ["begin_set", "stop"], ["begin_set", "step_set", "stop"],
+            # the instance's timeout elapses (its last-access time is moved back beyond the timeout); the sweep that
+            # removes it is triggered by whichever request comes next - its own or the other instance's
+            ["begin", "step_set", "expire", "step"], ["begin_set", "expire", "keepalive"], ["begin", "expire"]]
     # starting the instance is a request of the script: an instance may be started after another one was used and stopped
     return [["start"] + x for x in out]
 
@@ -101,6 +104,12 @@ class Server(object):
             r = post("/%s/keep-alive" % uid)
         elif req == "stop":
             r = post("/%s/stop-instance" % uid)
+        elif req == "expire":
+            import datetime
+            d = self.app._instance_manager._instances.get(uid)
+            if d is not None and d.get("time") is not None:
+                d["time"] = d["time"] - datetime.timedelta(hours=2)          # timeout is 1 hour
+            return (200, "idle for two hours")
         else:
             raise ValueError(req)
         try:
@@ -121,6 +130,14 @@ def run_case(sa, sb, merge, mode, env=None):
     for inst in (0, 1):
         s2 = Server(mode, env)
         solo[inst] = [s2.do(inst, pos, req) for pos, req in enumerate(seqs[inst])]
+    # once an instance's timeout has elapsed, its own fate depends - by design (C17) - on which request triggers
+    # the next sweep; only the OTHER instance's responses are compared from then on
+    for inst in (0, 1):
+        if "expire" in seqs[inst]:
+            cut = seqs[inst].index("expire") + 1
+            for lst in (inter[inst], solo[inst]):
+                for i in range(cut, len(lst)):
+                    lst[i] = (0, "not compared: after this instance's own timeout")
     return inter, solo
 
 
@@ -275,7 +292,8 @@ def run(tier):
         rep.candidate(sig, {"sa": a, "sb": b, "merge": [list(x) for x in m], "env": env}, "scripts %s | %s interleaved %s: %s" % (a, b, m, what))
     rep.assume("two instances; the bptk factory builds a fresh model per instance (as in the repository's server tests)",
                "interleavings at request granularity (a spread sample of up to %d merges per script pair, always including 'all of one instance, then the other'; scripts of 3-5 requests starting with start-instance)" % lim,
-               "instance ids differ between runs and are not compared; timestamps are not part of the compared responses")
+               "instance ids differ between runs and are not compared; timestamps are not part of the compared responses",
+               "timing out: the instance's last-access time is moved back by two hours (timeout one hour); the sweep runs in the next request to any instance")
     rep.coverage.update({"states": len(tasks), "transitions": max(1, counts["holds"]), "traces_validated_against_impl": len(seen),
                          "samples": samples, "verdicts": counts, "exhaustive": False,
                          "explanation": "states = (script pair, interleaving) cases; each compares every response with the solo replay for all setting values",
